@@ -137,6 +137,7 @@ func scalar(t types.Type, x Term) SV { return SV{T: t, L: []Term{x}} }
 
 // State is the symbolic state of one path.
 type State struct {
+	backEdges int // bounded mode: loop iterations started on this path
 	heap    map[string]Term // class#leaf -> current array term
 	heap0   map[string]Term // entry versions (shared; filled lazily)
 	alloc   Term
